@@ -370,8 +370,14 @@ impl<R: Read> StreamBufferedReader<R> {
         let mut remaining = buf;
 
         while !remaining.is_empty() {
-            // Ensure we have data in buffer
-            let available = self.ensure_buffered(remaining.len())?;
+            // Serve what is already buffered first; only an empty buffer needs a refill.
+            // (Asking for the whole request up front fails when the buffer is full and
+            // cannot grow, although every byte of it is deliverable.)
+            let available = if self.pos < self.end {
+                self.end - self.pos
+            } else {
+                self.ensure_buffered(remaining.len())?
+            };
             if available == 0 {
                 break; // End of stream
             }
@@ -421,8 +427,14 @@ impl<R: Read> StreamBufferedReader<R> {
         let mut remaining = buf;
 
         while !remaining.is_empty() {
-            // Ensure we have data in buffer
-            let available = self.ensure_buffered(remaining.len())?;
+            // Serve what is already buffered first; only an empty buffer needs a refill.
+            // (Asking for the whole request up front fails when the buffer is full and
+            // cannot grow, although every byte of it is deliverable.)
+            let available = if self.pos < self.end {
+                self.end - self.pos
+            } else {
+                self.ensure_buffered(remaining.len())?
+            };
             if available == 0 {
                 break; // End of stream
             }
